@@ -1,8 +1,194 @@
 import PyGam.Drv.Common
+import PyGam.Model.Search
 namespace PyGam.Drv.C10
-open PyGam PyGam.Drv
+open PyGam PyGam.Drv PyGam.Search
 
-/-- operations of the C10 model driver (`C10 <op> <args…>`); `none` ↦ `bad-op` -/
+/-!
+Operations of the C10 model driver (`C10 <op> <args…>`); `none` ↦ `bad-op`.
+
+Encodings: a grid entry / candidate value is `s:<rat>` (scalar) or `v:<rat>,<rat>,…` (iterable, `v:` = empty);
+a keyword block is `<name> <targetLen> <nd2> <k> <entry>×k` with `nd2 ∈ {0, 1, x}` (`x` = not iterable, then `k = 0`);
+scores are IEEE bit patterns `b<uint64>`; a skipped (ValueError) candidate is `skip`; no self score is `-`.
+
+* `combine <k> (<n> <rat>×n)×k`                       → `ok <rows> : r00 r01 ; r10 r11 …` | `IndexError`
+* `grid <targetLen> <nd2> <k> <entry>×k`              → `ok <entry>…` | `ValueError:<tag>`
+* `objective <known> <name>`                          → `ok <NAME>` | `ValueError:<tag>`
+* `plan <known> <objective> <adm,adm,…> <dflt block> <p> <block>×p`
+                                                      → `ok <OBJ> <name,name…> <ncand> | <entry>… | <entry>… …`
+* `search <known> <objective> <adm…> <dflt block> <p> <block>×p <keepBest> <returnScores> <selfScore> <n> <out>×n`
+      → `ok obj=<OBJ> ncand=<n> nmodels=<k> best=<ref> self=<label> ret=<self|scores> models=<ref>:<bits>,…`
+        (`bad-op` when `n` is not the number of candidates of the plan)
+-/
+
+def parseEntry? (s : String) : Option (GVal Rat) :=
+  if s.startsWith "s:" then (parseRat? ((s.drop 2).toString)).map GVal.scalar
+  else if s.startsWith "v:" then
+    let body := (s.drop 2).toString
+    if body = "" then some (.vec [])
+    else ((body.splitOn ",").mapM parseRat?).map GVal.vec
+  else none
+
+def showEntry : GVal Rat → String
+  | .scalar a => "s:" ++ showRat a
+  | .vec l => "v:" ++ joinWith "," (l.map showRat)
+
+def parseBool? : String → Option Bool
+  | "0" => some false
+  | "1" => some true
+  | _ => none
+
+def parseObjective (s : String) : Objective :=
+  match s with
+  | "auto" => .auto | "GCV" => .GCV | "UBRE" => .UBRE | "AIC" => .AIC | "AICc" => .AICc
+  | _ => .other
+
+def showObjective : Objective → String
+  | .auto => "auto" | .GCV => "GCV" | .UBRE => "UBRE" | .AIC => "AIC" | .AICc => "AICc" | .other => "other"
+
+def showErrTag : SearchErr → String
+  | .badObjective => "badObjective" | .gcvKnownScale => "gcvKnownScale" | .ubreUnknownScale => "ubreUnknownScale"
+  | .unknownParam => "unknownParam" | .gridTooShort => "gridTooShort" | .gridColumns => "gridColumns"
+  | .noBest => "noBest"
+
+def showErr (e : SearchErr) : String := e.pyClass ++ ":" ++ showErrTag e
+
+/-- take `n` tokens -/
+def takeN? (n : Nat) (toks : List String) : Option (List String × List String) :=
+  if toks.length < n then none else some (toks.take n, toks.drop n)
+
+/-- `<nd2> <k> <entry>×k` -/
+def parseSpec? : List String → Option (GridSpec Rat × List String)
+  | nd2 :: k :: rest => do
+      let k ← k.toNat?
+      let (es, rest) ← takeN? k rest
+      let es ← es.mapM parseEntry?
+      match nd2 with
+      | "x" => if k = 0 then some (.notIterable, rest) else none
+      | _ => do
+        let b ← parseBool? nd2
+        some (.seq b es, rest)
+  | _ => none
+
+/-- `<name> <targetLen> <nd2> <k> <entry>×k` -/
+def parseBlock? : List String → Option (ParamGrid Rat × List String)
+  | name :: t :: rest => do
+      let t ← t.toNat?
+      let (spec, rest) ← parseSpec? rest
+      some ({ name := name, targetLen := t, spec := spec }, rest)
+  | _ => none
+
+def parseBlocks? : Nat → List String → Option (List (ParamGrid Rat) × List String)
+  | 0, toks => some ([], toks)
+  | n+1, toks => do
+      let (b, rest) ← parseBlock? toks
+      let (bs, rest) ← parseBlocks? n rest
+      some (b :: bs, rest)
+
+def parseGrids? : Nat → List String → Option (List (List Rat) × List String)
+  | 0, toks => some ([], toks)
+  | n+1, toks =>
+    match toks with
+    | k :: rest => do
+      let k ← k.toNat?
+      let (es, rest) ← takeN? k rest
+      let es ← es.mapM parseRat?
+      let (gs, rest) ← parseGrids? n rest
+      some (es :: gs, rest)
+    | [] => none
+
+def parseAdm (s : String) : List String := if s = "-" then [] else s.splitOn ","
+
+structure Head where
+  known : Bool
+  obj : Objective
+  adm : List String
+  dflt : ParamGrid Rat
+  pgs : List (ParamGrid Rat)
+
+def parseHead? : List String → Option (Head × List String)
+  | known :: obj :: adm :: rest => do
+      let known ← parseBool? known
+      let (dflt, rest) ← parseBlock? rest
+      match rest with
+      | p :: rest => do
+        let p ← p.toNat?
+        let (pgs, rest) ← parseBlocks? p rest
+        some ({ known := known, obj := parseObjective obj, adm := parseAdm adm, dflt := dflt, pgs := pgs }, rest)
+      | [] => none
+  | _ => none
+
+def showRef : Ref → String
+  | .self => "self"
+  | .cand i => "c" ++ toString i
+
+def parseOut? (s : String) : Option (Option Float) :=
+  if s = "skip" then some none else (parseFloat? s).map some
+
+def parseSelfScore? (s : String) : Option (Option Float) :=
+  if s = "-" then some none else (parseFloat? s).map some
+
+def floatInf : Float := 1.0 / 0.0
+
+def showPlan (p : Plan Rat) : String :=
+  "ok " ++ showObjective p.objective ++ " " ++ joinWith "," p.params ++ " " ++ toString p.candidates.length
+    ++ String.join (p.candidates.map (fun c => " | " ++ joinWith " " (c.map showEntry)))
+
 def handle : List String → Option String
+  | "combine" :: k :: rest => do
+      let k ← k.toNat?
+      let (gs, rest) ← parseGrids? k rest
+      if !rest.isEmpty then none
+      else if gs.isEmpty then some "IndexError"
+      else
+        let rows := combine gs
+        some ("ok " ++ toString rows.length ++ " : " ++ showMatRat rows)
+  | "grid" :: t :: rest => do
+      let t ← t.toNat?
+      let (spec, rest) ← parseSpec? rest
+      if !rest.isEmpty then none
+      else match normaliseGrid t spec with
+        | .error e => some (showErr e)
+        | .ok g => some ("ok " ++ joinWith " " (g.map showEntry))
+  | ["objective", known, name] => do
+      let known ← parseBool? known
+      match resolveObjective known (parseObjective name) with
+      | .error e => some (showErr e)
+      | .ok o => some ("ok " ++ showObjective o)
+  | "plan" :: rest => do
+      let (h, rest) ← parseHead? rest
+      if !rest.isEmpty then none
+      else match plan h.known h.obj h.adm h.dflt h.pgs with
+        | .error e => some (showErr e)
+        | .ok p => some (showPlan p)
+  | "search" :: rest => do
+      let (h, rest) ← parseHead? rest
+      match rest with
+      | kb :: rs :: ss :: n :: outs => do
+        let kb ← parseBool? kb
+        let rs ← parseBool? rs
+        let ss ← parseSelfScore? ss
+        let n ← n.toNat?
+        if outs.length != n then none
+        else do
+          let outs ← outs.mapM parseOut?
+          -- the number of outcomes must be the number of candidates of the plan
+          match plan h.known h.obj h.adm h.dflt h.pgs with
+          | .error e => some (showErr e)
+          | .ok p0 =>
+            if p0.candidates.length != n then none
+            else
+              let fit : Objective → Nat → List (GVal Rat) → Option (String × Float) :=
+                fun _ i _ => (outs.getD i none).map (fun s => ("c" ++ toString i, s))
+              match gridsearch floatInf h.known h.obj h.adm h.dflt h.pgs kb rs "self" (fun _ => ss) fit with
+              | .error e => some (showErr e)
+              | .ok (p, o) =>
+                let ret := match o.returned with
+                  | .self => "ret=self models="
+                  | .scores l => "ret=scores models=" ++ joinWith "," (l.map (fun (r, s) => showRef r ++ ":" ++ showFloat s))
+                some ("ok obj=" ++ showObjective p.objective ++ " ncand=" ++ toString p.candidates.length
+                  ++ " nmodels=" ++ toString o.nModels
+                  ++ " best=" ++ (match o.best with | none => "none" | some r => showRef r)
+                  ++ " self=" ++ o.selfAfter ++ " " ++ ret)
+      | _ => none
   | _ => none
 end PyGam.Drv.C10
